@@ -1,4 +1,5 @@
 import Emerge.Ebnf
+import Emerge.Proofs.EbnfVerify
 /-
   C07 — specification rejected iff ill-formed; every terminal gets exactly one definition.
 
@@ -97,5 +98,99 @@ example :
     let t : SymTab := { terminals := [⟨"a", [⟨"a", "a", false, none⟩]⟩], nonTerminals := ["start"],
                         prods := [⟨"start", [.t "a"]⟩] }
     (verify "f" t = [] ∧ t.errs = [] ∧ cfgVerify t = [] ∧ precVerify t.levels = []) := by decide
+
+/-- **One entry per terminal name** is kept by every semantic action, so it holds for the table the final action sees. -/
+theorem C07_one_entry_per_terminal {t t' : SymTab} (h : TermsNodup t) (cfg : Cfg) (file : String) (names predefs : List (String × String))
+    (i : Nat) (rhs : List PVal) (v : Val) (ha : action cfg file names predefs t i rhs = .ok (t', v)) : TermsNodup t' :=
+  h.action cfg file names predefs i rhs v ha
+
+theorem C07_empty_table : TermsNodup ({} : SymTab) := by
+  unfold TermsNodup; exact List.nodup_nil
+
+/-- **Accepted iff well-formed**: the final action returns a specification exactly when every terminal of the table has
+    exactly one definition, the values of the terminals are pairwise distinct, no unknown predefined name was recorded,
+    `start` and every non-terminal have a production and every symbol is declared, and no handle is in two levels. -/
+theorem C07_accept_iff_wellformed (cfg : Cfg) (file : String) (names predefs : List (String × String)) {t : SymTab}
+    (h : TermsNodup t) (name : String) (pos : Option Pos) (rest : List PVal) :
+    (∃ r, action cfg file names predefs t 0 (⟨.str name, pos⟩ :: rest) = .ok r) ↔ WellFormed t :=
+  (C07_accept_iff cfg file names predefs t name pos rest).trans (checkers_nil_iff file h)
+
+/-- **Every diagnostic names a defect that is present** (and the diagnostics are nothing but the checkers' lines). -/
+theorem C07_diagnostics_sound (cfg : Cfg) (file : String) (names predefs : List (String × String)) {t : SymTab}
+    (h : TermsNodup t) (rhs : List PVal) (ds : List String)
+    (ha : action cfg file names predefs t 0 rhs = .err ds) : ∀ m ∈ ds, Defect file t m := by
+  intro m hm
+  rcases C07_diagnostics cfg file names predefs t rhs ds ha with hd | hd
+  · rw [hd, List.mem_append] at hm
+    rcases hm with h1 | h2
+    · exact Or.inl h1
+    · exact verify_sound file h m h2
+  · rw [hd, List.mem_append, List.mem_append] at hm
+    rcases hm with (h1 | h2) | h3
+    · exact Or.inl h1
+    · rcases cfgVerify_sound t m h2 with a | b | c | d
+      · exact Or.inr (Or.inr (Or.inr (Or.inr (Or.inr (Or.inl a)))))
+      · exact Or.inr (Or.inr (Or.inr (Or.inr (Or.inl b))))
+      · exact Or.inr (Or.inr (Or.inr (Or.inr (Or.inr (Or.inr (Or.inl c))))))
+      · exact Or.inr (Or.inr (Or.inr (Or.inr (Or.inr (Or.inr (Or.inr (Or.inl d)))))))
+    · exact Or.inr (Or.inr (Or.inr (Or.inr (Or.inr (Or.inr (Or.inr (Or.inr (precVerify_sound t.levels m h3))))))))
+
+theorem length_insertDef (x : TermDef) (l : List TermDef) : (insertDef x l).length = l.length + 1 := by
+  induction l with
+  | nil => rfl
+  | cons y l ih => simp only [insertDef]; split <;> simp [ih]
+
+theorem length_foldr_insertDef (l : List TermDef) : (l.foldr insertDef []).length = l.length := by
+  induction l with
+  | nil => rfl
+  | cons y l ih => simp [List.foldr, length_insertDef, ih]
+
+theorem length_filterMap_single (l : List TermEntry) (h : ∀ e ∈ l, e.defs.length = 1) :
+    (l.filterMap fun e => match e.defs with | [d] => some d | _ => none).length = l.length := by
+  induction l with
+  | nil => rfl
+  | cons e l ih =>
+    have he := h e List.mem_cons_self
+    match hd : e.defs with
+    | [d] => simp [List.filterMap_cons, hd, ih (fun e' he' => h e' (List.mem_cons_of_mem _ he'))]
+    | [] => rw [hd] at he; cases he
+    | _ :: _ :: _ => rw [hd] at he; simp at he
+
+/-- **Every terminal gets exactly one definition**: for a well-formed table the definition list handed on has one entry
+    per terminal of the table, each terminal's single definition is in it, and nothing else is. -/
+theorem C07_one_definition_each {t : SymTab} (h : WellFormed t) :
+    (definitions t).length = t.terminals.length ∧
+    (∀ e ∈ t.terminals, ∃ d, e.defs = [d] ∧ d ∈ definitions t) ∧
+    (∀ d ∈ definitions t, ∃ e ∈ t.terminals, e.defs = [d]) := by
+  refine ⟨?_, ?_, fun d hd => (C07_definitions_mem t d).mp hd⟩
+  · simp only [definitions, length_foldr_insertDef]
+    exact length_filterMap_single _ h.defined
+  · intro e he
+    have := h.defined e he
+    match hd : e.defs with
+    | [d] => exact ⟨d, rfl, (C07_definitions_mem t d).mpr ⟨e, he, hd⟩⟩
+    | [] => rw [hd] at this; cases this
+    | _ :: _ :: _ => rw [hd] at this; simp at this
+
+/-- An unknown predefined name is recorded as an error (and defines nothing); a known one defines the token. -/
+theorem C07_predefined (cfg : Cfg) (file : String) (names predefs : List (String × String)) (t : SymTab)
+    (tok value : String) (p0 p1 p2 : Option Pos) (x : Val) :
+    action cfg file names predefs t 11 [⟨.str tok, p0⟩, ⟨x, p1⟩, ⟨.str value, p2⟩] =
+      match predefs.find? (·.1 == value) with
+      | none => .ok ({ t with errs := t.errs ++ ["invalid predefined regex: " ++ value] }, .nil)
+      | some (_, re) => .ok (addRegexTokenDef t tok re p0, .nil) := by
+  simp only [action, List.getElem?_cons_zero, List.getElem?_cons_succ, Option.map_some, Option.bind_some]
+  cases predefs.find? (·.1 == value) <;> rfl
+
+/-- Non-vacuity: a table with a doubly defined token, a token without definition and two terminals of equal value is not
+    well-formed, and the checkers say so; a small complete table is well-formed. -/
+def badTab : SymTab :=
+  { terminals := [⟨"A", [⟨"A", "x", false, none⟩, ⟨"A", "y", false, none⟩]⟩, ⟨"B", []⟩, ⟨"C", [⟨"C", "z", false, none⟩]⟩, ⟨"z", [⟨"z", "z", false, none⟩]⟩],
+    nonTerminals := ["start"], prods := [⟨"start", [.t "A", .t "B", .t "C", .t "z"]⟩] }
+def goodTab : SymTab :=
+  { terminals := [⟨"A", [⟨"A", "x", false, none⟩]⟩, ⟨"z", [⟨"z", "z", false, none⟩]⟩],
+    nonTerminals := ["start"], prods := [⟨"start", [.t "A", .t "z"]⟩] }
+example : (verify "f" badTab).length = 3 ∧ verify "f" goodTab = [] ∧ cfgVerify goodTab = [] ∧ precVerify goodTab.levels = [] := by decide
+example : TermsNodup badTab ∧ TermsNodup goodTab := by constructor <;> (unfold TermsNodup; decide)
 
 end Emerge.Props.C07
